@@ -36,15 +36,15 @@ def opts_str(o):
 
 def parse(data, opts="default", src="slice", api="value", fast=True, fail_at=None, timeout=20):
     """-> dict (JSON printed by the replay binary) or {'crash': ...}"""
-    cmd = [binary(fast), "parse", opts_str(opts), src, api, bytes(data).hex()]
+    cmd = [binary(fast), "parse", opts_str(opts), src, api, "-"]
     if fail_at is not None:
         cmd.append(str(fail_at))
     try:
-        p = subprocess.run(cmd, capture_output=True, text=True, timeout=timeout)
+        p = subprocess.run(cmd, input=bytes(data).hex(), capture_output=True, text=True, timeout=timeout)
     except subprocess.TimeoutExpired:
         return {"crash": "timeout"}
     if p.returncode != 0:
-        return {"crash": "exit %d" % p.returncode, "stderr": p.stderr[-800:]}
+        return {"crash": "exit %d" % p.returncode, "stderr": p.stderr[:600]}
     try:
         return json.loads(p.stdout.strip().split("\n")[-1])
     except Exception as e:  # noqa
